@@ -515,6 +515,7 @@ def ir_setup(ctx):
     s.filter_name = "ramp" if ctx.branch(ctx.fresh("filter_is_ramp", "bool").t) else "bogus-name"
     s.circle = bool(ctx.branch(ctx.fresh("circle", "bool").t))
     s.device = None
+    ctx.ghost["c07_setup"] = s
     # explored configurations (each with both parities of N unless stated):
     #   explicit theta x circle in {True, False} x ramp | default theta x circle=True x ramp | odd N, explicit theta, circle=True, unknown filter name
     ok = (s.filter_name == "ramp" and (not s.theta_none or s.circle)) or (s.filter_name != "ramp" and s.odd and not s.theta_none and s.circle)
@@ -550,7 +551,7 @@ def ir_spec(s, theta, filtered, out, radius):
     contribution of angle index a to pixel (b, row y, column x), the circle predicate, and the detector coordinate."""
     b, y, x = PX
     N = lift(s.N)
-    r = lift(radius)
+    r = lift(S(radius)) if not V.is_z3(radius) else radius
 
     def u_of(a):
         ang = reals._real(theta.fn(a)) * V.PI / 180
@@ -586,44 +587,67 @@ def emit(ctx, name, goal, hyps=(), gen=(), kind="loop-body"):
 PS_IR = z3.Function("iradon_partial_sum", z3.IntSort(), z3.IntSort(), z3.IntSort(), z3.IntSort(), z3.RealSort())
 
 
+def _find_local(s, want, shape_nd, args):
+    """Name-independent access to a body temporary: the local tensor (of rank `shape_nd`) whose generic element is provably `want`."""
+    ctx = s.ctx
+    for name, v in sorted(s.__dict__.items()):
+        if isinstance(v, SymArr) and v.ndim == shape_nd and name not in ("pre",):
+            try:
+                e = reals._real(v.fn(*args))
+            except Exception:  # noqa: BLE001
+                continue
+            if e.eq(want) or ctx.entails(e == want):
+                return e
+    return None
+
+
 def ir_inv(s):
     """Loop over the projection angles.  Invariant (at the arbitrary pixel PX, inside the reconstruction circle):
         recon[b,y,x] == PS(k; b,y,x),   PS(0) = 0,  PS(k+1) = PS(k) + interp(filtered[b,k,:], x*cos(th_k) - y*sin(th_k) + N//2)
-    i.e. the partial sum of scikit-image's per-angle term.  The body obligations are emitted as a chain with explicit hypotheses."""
+    i.e. the partial sum of scikit-image's per-angle term.  The body obligations are emitted as a chain with explicit hypotheses.
+    Only the accumulator `recon` and the parameters are referred to by name; temporaries are found by their role."""
     ctx = s.ctx
-    if not s.circle:
+    su = ctx.ghost["c07_setup"]
+    log = M7.fft_log(ctx)
+    if not su.circle or len(log) != 2:
         # circle=False: only the structural postconditions are stated (see ASSUMPTIONS)
-        ctx.ghost["c07_ir_sq"] = dict(out=s.output_size, theta=s.theta, filtered=s.filtered)
+        ctx.ghost["c07_ir_sq"] = dict(out=s.__dict__.get("output_size"), theta=s.__dict__.get("theta"))
         return []
-    par = "odd N" if ctx.entails(lift(s.N) % 2 == 1) else "even N"
-    sp = ir_spec(s, s.theta, s.filtered, s.output_size, s.radius)
-    ctx.ghost["c07_ir"] = dict(spec=sp, theta=s.theta, filtered=s.filtered, out=s.output_size, radius=s.radius)
+    par = su.par
+    N, A, B = lift(su.N), lift(su.A), lift(su.B)
+    r = N / 2                                            # reference: radius = output_size // 2, output_size = N
+    filt = log[1]["out"].re                              # real(ifft(...)) BEFORE cropping: F(b, a, n) for every integer n
+    theta = s.theta
+    sp = ir_spec(su, theta, filt, N, r)
+    ctx.ghost["c07_ir"] = dict(spec=sp, theta=theta, out=N)
     b, y, x = PX
     k = lift(s.k)
     here = AND(sp.inrange, sp.inside)
     ctx.assume(PS_IR(z3.IntVal(0), b, y, x) == 0)   # definition of the partial sum
-    if not ("proj" in s.__dict__ and "t_idx" in s.__dict__):
+    body_done = len(ctx.ghost.get("c07_gather", [])) > 0
+    if not body_done:
         inv = implies(here, lift(s.recon.fn(b, y, x)) == PS_IR(k, b, y, x))
-        ctx.ghost["c07_ir_inv_k"] = inv
+        ctx.ghost["c07_ir_inv_k"] = (inv, reals._real(s.recon.fn(b, y, x)))
         return [(f"recon=partial-sum-of-interpolated-projections[{par}]", inv)]
     # ---- after the body (k = k0 + 1): chain of obligations about iteration kk = k - 1
     kk = z3.simplify(k - 1)
     lid = "iradon_torch@loop0:inv-preserved:"
-    N, r = lift(s.N), lift(s.radius)
-    base = [lift(s.B) >= 1, lift(s.A) >= 1, N >= 2, N % 2 == (1 if par == "odd N" else 0), sp.inrange, kk >= 0, kk < lift(s.A)]
+    base = [B >= 1, A >= 1, N >= 2, N % 2 == (1 if par == "odd N" else 0), sp.inrange, kk >= 0, kk < A]
     z0 = z3.IntVal(0)
-    u_code = reals._real(s.t_idx.fn(z0, y, x))
     u_spec = sp.u_of(kk)
-    w = reals._real(s.w.fn(z0, y, x))
-    ang = reals._real(s.theta.fn(kk)) * V.PI / 180
+    ang = reals._real(theta.fn(kk)) * V.PI / 180
     c_, s_ = reals.F["cos"](ang), reals.F["sin"](ang)
     X, Y = z3.ToReal(x - r), z3.ToReal(y - r)
     t = X * c_ - Y * s_
     U, U2, T = R("U!gen"), R("U2!gen"), R("T!gen")
+    inv_k, recon_k = ctx.ghost["c07_ir_inv_k"]
+    u_code = _find_local(s, u_spec, 3, (z0, y, x))
+    if u_code is None:
+        emit(ctx, lid + "detector-coordinate-is-x*cos-y*sin+N//2", False, base)
+        return []
     g_u = emit(ctx, lid + "detector-coordinate-is-x*cos-y*sin+N//2", u_code == u_spec, base)
-    g_r = emit(ctx, lid + "radius-is-N//2", r == N / 2, base)
-    o1 = emit(ctx, lid + f"rotation-axis+-radius-lies-within-the-detector[{par}]", AND(N / 2 + r <= N - 1, N / 2 - r >= 0), base + [g_r])
-    g_r0 = emit(ctx, lid + "radius>=0", r >= 0, base + [g_r])
+    o1 = emit(ctx, lid + f"rotation-axis+-radius-lies-within-the-detector[{par}]", AND(N / 2 + r <= N - 1, N / 2 - r >= 0), base)
+    g_r0 = emit(ctx, lid + "radius>=0", r >= 0, base)
     Cc, Ss, Xg, Yg, Rg = R("cos!gen"), R("sin!gen"), I("X!gen"), I("Y!gen"), I("r!gen")
     l1 = emit(ctx, lid + "|x*cos-y*sin|<=radius-inside-the-circle", implies(sp.inside, AND(t <= z3.ToReal(r), -z3.ToReal(r) <= t)),
               [g_r0, c_ * c_ + s_ * s_ == 1],   # A4 instance sin^2+cos^2=1
@@ -631,15 +655,15 @@ def ir_inv(s):
     g_rng = emit(ctx, lid + f"detector-coordinate-in-[0,N-1]-inside-the-circle[{par}]",
                  implies(sp.inside, AND(u_spec >= 0, u_spec <= z3.ToReal(N - 1))), base + [o1, l1], gen=[(t, T)])
     facts = base + [g_u, g_rng]
-    emit(ctx, lid + f"interpolation-weight-in-[0,1]-inside-the-circle[{par}]", implies(sp.inside, AND(w >= 0, w <= 1)), facts, gen=[(u_code, U), (u_spec, U2)])
-    pj, cn = reals._real(s.proj.fn(b, y, x)), sp.contrib(kk)
-    g_lin = emit(ctx, lid + f"contribution-is-linear-interpolation-of-the-filtered-projection[{par}]", implies(sp.inside, pj == cn), facts,
-                 gen=[(u_code, U), (u_spec, U2)])
+    # this iteration's contribution = accumulator after - accumulator before
+    pj, cn = reals._real(s.recon.fn(b, y, x)) - recon_k, sp.contrib(kk)
+    g_lin = emit(ctx, lid + f"contribution-is-linear-interpolation-of-the-filtered-projection(weights-in-[0,1],no-clamping)[{par}]",
+                 implies(sp.inside, pj == cn), facts, gen=[(u_code, U), (u_spec, U2)])
     Pj, Cn = R("proj!gen"), R("contrib!gen")
     unfold = PS_IR(k, b, y, x) == PS_IR(kk, b, y, x) + cn           # definition of the partial sum
     emit(ctx, lid + f"recon=partial-sum-of-interpolated-projections[{par}]",
          implies(here, lift(s.recon.fn(b, y, x)) == PS_IR(k, b, y, x)),
-         base + [g_lin, unfold, ctx.ghost["c07_ir_inv_k"]], gen=[(pj, Pj), (cn, Cn)])
+         base + [g_lin, unfold, inv_k], gen=[(cn, Cn)])
     return []
 
 
@@ -692,7 +716,6 @@ def ir_ensures(s):
         out.append(("padded-size=max(64,smallest-power-of-two>=2N)", AND(P >= 64, P >= 2 * N, _ispow2(P), OR(P == 64, P < 4 * N))))
         fsrc = log[1]["src"].prov["factor"]
         out.append(("filter-built-for-the-padded-size", AND(lift(S(fsrc.shape[1])) == P, fsrc.ndim == 2)))
-        out.append(("filtered-projection-is-the-first-N-samples", lift(S(g["filtered"].shape[2])) == N))
     # value (circle mode): pi/(2A) * sum over the angles of scikit-image's interpolated term, zero outside the circle
     if s.circle:
         idx = (y, x) if res.ndim == 2 else (b, y, x)
@@ -797,16 +820,21 @@ def rd_spec_sum(s_images, N, theta, b, a, j):
 
 
 def rd_inv(s):
+    """Loop over the angles.  Invariant at the arbitrary entry PXR: every finished row a < k of the sinogram buffer equals the reference
+    sum.  Only the buffer `radon_images` and the parameter `theta` are referred to by name; everything else comes from the
+    grid_sample call observed by the model (its input, its grid, its output)."""
     ctx = s.ctx
-    par = "odd N" if ctx.entails(lift(s.N) % 2 == 1) else "even N"
+    su = ctx.ghost["c07_setup_rd"]
+    par = su.par
     b, a, j = PXR
     k = lift(s.k)
-    N, B, A = lift(s.N), lift(s.B), lift(s.N_angles)
-    src = ctx.ghost["c07_rd_images"]          # the caller's tensor (the local `images` is rebound to the masked clone)
+    N, B, A = lift(su.N), lift(su.B), lift(su.T)
+    src = su.images                                   # the caller's tensor
     inrange = AND(_rng(b, B), _rng(j, N), a >= 0)
     spec_a, _ = rd_spec_sum(src, N, s.theta, b, a, j)
     ctx.ghost["c07_rd"] = dict(inrange=inrange, spec=spec_a, theta=s.theta)
-    if "projection" not in s.__dict__:
+    gs = M7.gs_log(ctx)
+    if not gs:
         inv = implies(AND(inrange, a < k), lift(s.radon_images.fn(b, a, j)) == spec_a)
         ctx.ghost["c07_rd_inv_k"] = inv
         return [(f"rows-done-equal-the-reference-sum", inv)]
@@ -815,30 +843,28 @@ def rd_inv(s):
     lid = "radon_torch@loop0:inv-preserved:"
     i = ROW
     base = [B >= 1, N >= 2, N % 2 == (1 if par == "odd N" else 0), _rng(b, B), _rng(j, N), _rng(i, N), kk >= 0, kk < A]
-    gs = M7.gs_log(ctx)
     if len(gs) != 1:
         emit(ctx, lid + "exactly-one-grid_sample-call-per-angle", False, base)
         return []
     g = gs[0]
     z0, z1 = z3.IntVal(0), z3.IntVal(1)
     xpix, ypix = lift(g["xpix"](b, i, j)), lift(g["ypix"](b, i, j))
-    cx, cy = reals._real(s.coords_rot.fn(b, i, j, z0)), reals._real(s.coords_rot.fn(b, i, j, z1))
-    Cx, Cy, D = R("cx!gen"), R("cy!gen"), R("Nm1!gen")
-    emit(ctx, lid + "grid_sample-input-and-grid-are-[B,1,N,N]-and-[B,N,N,2]",
-         AND(g["input"].ndim == 4, g["grid"].ndim == 4, *[lift(S(d)) == e for d, e in zip(g["input"].shape, (B, z1, N, N))],
-             *[lift(S(d)) == e for d, e in zip(g["grid"].shape, (B, N, N, z3.IntVal(2)))]), base)
-    g_norm = emit(ctx, lid + "grid-normalisation-2x/(N-1)-1-un-normalises-to-x-(align_corners=True)", AND(xpix == cx, ypix == cy),
-                  [z3.ToReal(N - 1) >= 1], gen=[(cx, Cx), (cy, Cy), (z3.ToReal(N - 1), D)])
+    g_shape = emit(ctx, lid + "grid_sample-input-and-grid-are-[B,1,N,N]-and-[B,N,N,2]",
+                   AND(g["input"].ndim == 4, g["grid"].ndim == 4, *[lift(S(d)) == e for d, e in zip(g["input"].shape, (B, z1, N, N))],
+                       *[lift(S(d)) == e for d, e in zip(g["grid"].shape, (B, N, N, z3.IntVal(2)))]), base)
     o2 = emit(ctx, lid + f"row-reflection-about-the-rotation-centre-maps-[0,N)-onto-itself:2*(N//2)=N-1[{par}]", 2 * (N / 2) == N - 1, base)
     xs, ys = sk_point(N, s.theta.fn(kk), N - 1 - i, j)
-    g_geo = emit(ctx, lid + "sample-point-of-(row-i,column-j)=skimage's-sample-point-of-(row-N-1-i,column-j)", AND(cx == xs, cy == ys), base + [o2])
+    D = R("Nm1!gen")
+    Wm1, Hm1 = z3.ToReal(lift(S(g["input"].shape[3])) - 1), z3.ToReal(lift(S(g["input"].shape[2])) - 1)
+    g_geo = emit(ctx, lid + "grid-un-normalised-with-align_corners=True-is-skimage's-sample-point-of-(row-N-1-i,column-j)", AND(xpix == xs, ypix == ys),
+                 base + [o2, g_shape, z3.ToReal(N - 1) >= 1], gen=[(Wm1, D), (Hm1, D), (z3.ToReal(N - 1), D)])
     pix = masked_pixel(src, N)
     rr, cc = I("r!pix"), I("c!pix")
     H_, W_ = g["input"].shape[2], g["input"].shape[3]
-    shp = AND(lift(S(H_)) == N, lift(S(W_)) == N)   # proved just above
+    shp = AND(lift(S(H_)) == N, lift(S(W_)) == N)
     code_read = lambda r_, c_: M7.guarded_pixel(lambda r2, c2: g["input"].fn(b, z0, r2, c2), H_, W_, r_, c_)   # noqa: E731
     spec_read = lambda r_, c_: M7.guarded_pixel(lambda r2, c2: pix(b, r2, c2), N, N, r_, c_)                  # noqa: E731
-    g_in = emit(ctx, lid + "sampled-image-is-the-disc-masked-input-(zero-outside-the-frame)", code_read(rr, cc) == spec_read(rr, cc), base + [shp])
+    g_in = emit(ctx, lid + "sampled-image-is-the-disc-masked-input-(zero-outside-the-frame)", code_read(rr, cc) == spec_read(rr, cc), base + [g_shape])
     # summand(i) of the code == summand(N-1-i) of the reference
     _, summand = rd_spec_sum(src, N, s.theta, b, kk, j)
     code_val = reals._real(g["out"].fn(b, z0, i, j))
@@ -852,16 +878,17 @@ def rd_inv(s):
     g_s1 = emit(ctx, lid + "sampled-value=bilinear-zero-padded-sample-of-the-masked-image", code_val == via_spec_pixels, inst, gen=gen_reads)
     Xs, Ys = R("xs!gen"), R("ys!gen")
     g_s2 = emit(ctx, lid + "code-summand(i)=reference-summand(N-1-i)", code_val == lift(summand(N - 1 - i)),
-                base + [g_s1, g_norm, g_geo], gen=[(xpix, Xp), (ypix, Yp), (cx, Cx), (cy, Cy), (xs, Xs), (ys, Ys)])
+                base + [g_s1, g_geo], gen=[(xpix, Xp), (ypix, Yp), (xs, Xs), (ys, Ys)])
     # the same reduction applied to the tensor returned by grid_sample: sum over axis 1 (the rows i) of sampled[b, 0, i, j]
     code_sum = reals._real(g["out"].squeeze(1).sum(dim=1).fn(b, j))
-    g_sum = emit(ctx, lid + "projection=sum-over-the-rows-of-the-sampled-grid", reals._real(s.projection.fn(b, j)) == code_sum, base)
+    g_sum = emit(ctx, lid + "row-k-of-the-sinogram=sum-over-the-rows-of-the-sampled-grid", reals._real(s.radon_images.fn(b, kk, j)) == code_sum, base)
     spec_k, _ = rd_spec_sum(src, N, s.theta, b, kk, j)
     # T2 (trusted Sigma re-indexing): sum_{i<N} f(i) = sum_{r<N} g(r) when f(i) = g(N-1-i) for every 0 <= i < N  (premise: the obligation above)
     reindex = code_sum == spec_k
     emit(ctx, lid + f"rows-done-equal-the-reference-sum",
-         implies(AND(ctx.ghost["c07_rd"]["inrange"], a < k), lift(s.radon_images.fn(b, a, j)) == spec_a),
-         base + [g_sum, reindex, ctx.ghost["c07_rd_inv_k"], implies(a == kk, spec_a == spec_k)])
+         implies(AND(inrange, a < k), lift(s.radon_images.fn(b, a, j)) == spec_a),
+         base + [g_sum, reindex, ctx.ghost["c07_rd_inv_k"], implies(a == kk, spec_a == spec_k),
+                 implies(a == kk, lift(s.radon_images.fn(b, a, j)) == lift(s.radon_images.fn(b, kk, j)))])
     return []
 
 
@@ -891,7 +918,7 @@ def rd_ensures(s):
 
 def rd_setup2(ctx):
     s = rd_setup(ctx)
-    ctx.ghost["c07_rd_images"] = s.images
+    ctx.ghost["c07_setup_rd"] = s
     return s
 
 
